@@ -17,6 +17,11 @@ kinds
   commute    `a * b` -> `b * a`, `a + b` -> `b + a`; only inside numba-jitted functions (numeric operands: IEEE
              multiplication and addition commute exactly; the grouping of longer chains is kept)
   augexpand  `t[i] += e` -> `t[i] = t[i] + (e)` (likewise -=, *=); subscript targets only, inside jitted functions
+  temp       a call or binary sub-expression of an assignment / return is computed into a new local on the line before
+             (not taken from under a lambda, comprehension, conditional expression or and/or)
+  hoist      like temp, but the new local is computed two statements earlier (before the preceding simple statement,
+             which must not write anything the sub-expression reads)
+  kwarg      the last positional argument of a call to a plain function of the same module is passed by keyword
 """
 import argparse
 import ast
@@ -33,7 +38,7 @@ import mutscan  # noqa: E402
 
 VERIF = mutscan.VERIF
 REPO = mutscan.REPO
-KINDS = ("rename", "cmpflip", "ifinvert", "ternary", "commute", "augexpand")
+KINDS = ("rename", "cmpflip", "ifinvert", "ternary", "commute", "augexpand", "temp", "hoist", "kwarg")
 FLIP = {ast.Eq: "==", ast.NotEq: "!=", ast.Lt: ">", ast.LtE: ">=", ast.Gt: "<", ast.GtE: "<="}
 AUG = {ast.Add: "+", ast.Sub: "-", ast.Mult: "*"}
 
@@ -124,6 +129,59 @@ def rewrites(rel, src, per_function, kinds):
             if "augexpand" in kinds and jit and isinstance(n, ast.AugAssign) and isinstance(n.target, ast.Subscript) and type(n.op) in AUG:
                 new = "%s = %s %s (%s)" % (seg(n.target), seg(n.target), AUG[type(n.op)], seg(n.value))
                 per_kind["augexpand"].append(dict(base, kind="augexpand", what="%d: %s" % (n.lineno, seg(n)[:50]), edits=[pos(n) + (new,)]))
+        if "temp" in kinds or "kwarg" in kinds or "hoist" in kinds:
+            guarded = set()
+            for x in ast.walk(fn):
+                if isinstance(x, (ast.Lambda, ast.ListComp, ast.DictComp, ast.SetComp, ast.GeneratorExp, ast.IfExp, ast.BoolOp, ast.FunctionDef)) and x is not fn:
+                    guarded |= {id(y) for y in ast.walk(x) if y is not x}
+        if "temp" in kinds:
+            for st in ast.walk(fn):
+                if id(st) in inner_nodes or not isinstance(st, (ast.Assign, ast.AugAssign, ast.Return)) or st.value is None:
+                    continue
+                line = lines[st.lineno - 1]
+                if line[: st.col_offset].strip():
+                    continue  # not at the start of its line (`if c: x = ...`)
+                subs = [x for x in ast.walk(st.value) if x is not st.value and isinstance(x, (ast.Call, ast.BinOp)) and id(x) not in guarded]
+                if not subs:
+                    continue
+                x = subs[0]
+                nl = "\r\n" if line.endswith("\r\n") else "\n"
+                a0 = offs[st.lineno - 1]
+                ins = line[: st.col_offset] + "tmp_eq_r = (" + seg(x) + ")" + nl
+                per_kind["temp"].append(dict(base, kind="temp", what="%d: %s" % (st.lineno, seg(x)[:50]), edits=[pos(x) + ("tmp_eq_r",), (a0, a0, ins)]))
+        if "hoist" in kinds:
+            blocks = [fn.body] + [getattr(s, f) for s in ast.walk(fn) if id(s) not in inner_nodes and s is not fn for f in ("body", "orelse") if isinstance(getattr(s, f, None), list) and getattr(s, f) and isinstance(getattr(s, f)[0], ast.stmt) and not isinstance(s, (ast.FunctionDef, ast.ClassDef))]
+            for body in blocks:
+                for i in range(1, len(body)):
+                    prev, st = body[i - 1], body[i]
+                    if not isinstance(st, (ast.Assign, ast.AugAssign, ast.Return)) or st.value is None or not isinstance(prev, (ast.Assign, ast.AugAssign, ast.Expr)):
+                        continue
+                    line, pline = lines[st.lineno - 1], lines[prev.lineno - 1]
+                    if line[: st.col_offset].strip() or pline[: prev.col_offset].strip():
+                        continue
+                    written = {n.id for n in ast.walk(prev) if isinstance(n, ast.Name) and isinstance(n.ctx, ast.Store)} | {n.value.id for n in ast.walk(prev) if isinstance(n, ast.Subscript) and isinstance(n.ctx, ast.Store) and isinstance(n.value, ast.Name)}
+                    if isinstance(prev, ast.Expr):
+                        written |= {n.id for n in ast.walk(prev) if isinstance(n, ast.Name)}  # a call statement may mutate what it mentions
+                    subs = [x for x in ast.walk(st.value) if x is not st.value and isinstance(x, (ast.Call, ast.BinOp)) and id(x) not in guarded
+                            and not ({n.id for n in ast.walk(x) if isinstance(n, ast.Name)} & written)]
+                    if not subs:
+                        continue
+                    x = subs[0]
+                    nl = "\r\n" if pline.endswith("\r\n") else "\n"
+                    a0 = offs[prev.lineno - 1]
+                    ins = pline[: prev.col_offset] + "tmp_eq_r = (" + seg(x) + ")" + nl
+                    per_kind["hoist"].append(dict(base, kind="hoist", what="%d: %s" % (st.lineno, seg(x)[:50]), edits=[pos(x) + ("tmp_eq_r",), (a0, a0, ins)]))
+        if "kwarg" in kinds:
+            local_fns = {f.name: f for f in tree.body if isinstance(f, ast.FunctionDef)}
+            for c in ast.walk(fn):
+                if id(c) in inner_nodes or not (isinstance(c, ast.Call) and isinstance(c.func, ast.Name) and c.func.id in local_fns and c.args and not c.keywords):
+                    continue
+                callee = local_fns[c.func.id]
+                ps = [a.arg for a in callee.args.posonlyargs + callee.args.args]
+                if callee.args.vararg or callee.args.posonlyargs or len(c.args) > len(ps) or any(isinstance(a, ast.Starred) for a in c.args):
+                    continue
+                last = c.args[-1]
+                per_kind["kwarg"].append(dict(base, kind="kwarg", what="%d: %s(..., %s=...)" % (c.lineno, c.func.id, ps[len(c.args) - 1]), edits=[pos(last) + (ps[len(c.args) - 1] + "=" + seg(last),)]))
         for k, cands in per_kind.items():
             step = max(1, len(cands) // per_function) if cands else 1
             out.extend(cands[::step][:per_function])
